@@ -28,7 +28,7 @@ m = {
     "hooks": {
         "guard": "--cfg genmeta_gm_quic_verif",
         "enable": "harness/.cargo/config.toml sets rustflags = [\"--cfg\", \"genmeta_gm_quic_verif\"] for the harness build of the /repo path dependencies",
-        "baseline_off_cmd": "cd /repo && cargo nextest run --workspace --no-fail-fast --test-threads 8 --offline",
+        "baseline_off_cmd": "cd /repo && (cargo nextest run --workspace --no-fail-fast --test-threads 8 --offline || cargo test --workspace --no-fail-fast --offline)",
         "source_commits": json.load(open(os.path.join(ROOT, "hooks.json"))).get("source_commits", []) if os.path.exists(os.path.join(ROOT, "hooks.json")) else [],
         "add_only": True,
     },
